@@ -19,7 +19,7 @@ import bc
 import common
 
 MANIFEST = dict(
-    text='Theorems (props/C13.v, 18, all closed under the global context) about a hand-written Gallina model of Broadcaster.broadcast. '
+    text='Theorems (props/C13.v, 22, all closed under the global context) about a hand-written Gallina model of Broadcaster.broadcast. '
          'Join [bcast] (outer alignment on shared level names / cross product on disjoint ones, keys over obj levels ++ new parameter levels): '
          'same_index; rows_carry_restricted_value (every result row carries exactly the payload the original held for the row key restricted to the '
          "original's levels, or NaN when it has no such key -- unbounded: all level layouts, level orders, key sets); no_object_row_lost / "
@@ -28,7 +28,9 @@ MANIFEST = dict(
          'per-level tables shared by both operands, positional codes, join on codes, decode, restore): decode_encode, table_complete, recode_transparent '
          '(= the join of the operands themselves unless the coded indices coincide; proved by showing that the join commutes with every per-level recoding that is '
          'injective on the tables), impl_rows_carry_restricted_value, recode_transparent_refuted (known finding), operands_restored on every normal return, '
-         'exception_iff, operands_left_recoded_on_exception. The model (including the observed pandas align/join behaviour and its `equals` short-circuit) is tied '
+         'exception_iff, operands_left_recoded_on_exception. Dispatch of Broadcaster.broadcast in front of it [broadcast_top]: paramset_iff (only a Series with exactly one, '
+         'unnamed, level is a set of parameters), row_indexed_joined_as_is (DataFrame / several levels even if all unnamed / any named level, however the name looks: joined as '
+         'it is), object_levels_survive, paramset_on_parameter_levels. The model (including the observed pandas align/join behaviour and its `equals` short-circuit) is tied '
          'to the code by vm_compute correspondence on generated layouts on every run; the property oracle runs on the implementation on every run.',
     note=common.TB_NOTE + 'all C13 theorems are closed under the global context. Model is hand-written (pandas align/join behaviour included as '
          'observed): the correspondence harness (generator, canonicalisation of pandas objects into key/row lists, Coq literals) is trusted; '
@@ -403,9 +405,14 @@ def run(res, only=None):
     res.assumptions += ['index keys are unique within an operand (the property quantifies over key sets); duplicate keys are exercised but only counted',
                         'payloads are distinct integer-valued floats, so a result row identifies the original row it carries',
                         'result level ORDER is compared with obj levels ++ new parameter levels only up to the rearrangement pandas align leaves for <= 2 levels (the property does not fix it)',
-                        'uuid4 names never collide with user level names (model: Fresh vs User constructors)']
-    res.cov['rule'] = ('layouts: equal / disjoint / prm-in-obj / obj-in-prm / overlapping level-name sets over 5 names, 1-3 levels per operand, permuted level order, '
-                       'unnamed levels, parameter-set Series; Series/DataFrame x Series/DataFrame; 1-6 rows per operand drawn from pools of 3-4 keys per level (so that positional codes coincide '
+                        'uuid4 names never collide with user level names (model: Fresh vs User constructors)',
+                        'which objects are parameter sets (keys become columns) is read from the documented rule: a Series with exactly one index level that is unnamed; '
+                        'the oracle (bc.observe) and the model (is_paramset) implement this reading independently of the implementation',
+                        'inputs on which an OPEN known finding outside the model (integer level name, one-level MultiIndex) makes the implementation fail the property are not '
+                        'compared with the model (counted in the histogram); where the implementation satisfies the property they are']
+    res.cov['rule'] = ('layouts: equal / disjoint / prm-in-obj / obj-in-prm / overlapping level-name sets over 5 names (15%: also the falsy / non-string names \'\', 0, 1 in any '
+                       'role), 1-3 levels per operand, permuted level order, unnamed levels incl. Series and DataFrames ALL of whose 2-3 levels are unnamed, parameter-set Series, '
+                       'single level held by a one-level MultiIndex (8%); Series/DataFrame x Series/DataFrame; 1-6 rows per operand drawn from pools of 3-4 keys per level (so that positional codes coincide '
                        'and key sets differ); overlapping layouts with all shared key tuples present in both (inside the quantifier) and without (outside: counted); '
                        'non-trivial = inside the quantifier, >= 2 result rows, >= 2 levels in total (counted distinct by input)')
     proofs_ok = common.standard_proof_stage(res, 'C13')
